@@ -418,6 +418,19 @@ func c02RunShape(run *mon.Run, r *rand.Rand, si int, special string, ts []c02Tri
 			if pi > 0 && ci > 7 && ci%5 != pi {
 				continue
 			}
+			if (si+ci)%3 == 0 && len(pks) >= 1 {
+				// every third judged call follows, on this goroutine, calls that are REJECTED after some of the
+				// triples were already taken in (a foreign key or an identity key behind regular ones, a bad
+				// hasher at the end): nothing of them may reach the next verdict
+				run.Count("rejected-call-first", 1)
+				ecK, _ := crypto.GeneratePrivateKey(crypto.ECDSAP256, bytes.Repeat([]byte{3}, 32))
+				q := skFromInt(big.NewInt(int64(1000 + si))).PublicKey()
+				hq := hs[0]
+				_, _ = crypto.VerifyBLSSignatureManyMessages([]crypto.PublicKey{q, q, ecK.PublicKey()}, c.b, [][]byte{{1}, {2}, {3}}, []hash.Hasher{hq, hq, hq})
+				_, _ = crypto.VerifyBLSSignatureManyMessages([]crypto.PublicKey{q, crypto.IdentityBLSPublicKey()}, c.b, [][]byte{{1}, {2}}, []hash.Hasher{hq, hq})
+				_, _ = crypto.VerifyBLSSignatureManyMessages([]crypto.PublicKey{q, q}, c.b, [][]byte{{1}, {2}}, []hash.Hasher{hq, nil})
+				_, _ = crypto.VerifyBLSSignatureOneMessage([]crypto.PublicKey{q, ecK.PublicKey()}, c.b, []byte{1}, hq)
+			}
 			expect := !hasIdentity && bytes.Equal(c.b, encS)
 			var ok bool
 			var err error
